@@ -72,7 +72,7 @@ var verifSeeds = []string{
 // code, and once everything has settled the cached result — which is what a
 // late update would show — consists of, and belongs to, the last code.
 func VerifC30Late(nget int) {
-	codes := []string{"a", "b c", ""}
+	codes := []string{"a", "b", "b c", ""}
 	hasA, hasB := vrt.Bool("has a"), vrt.Bool("has b")
 	hl := NewHighlighter(Config{HasCommand: func(name string) bool {
 		if name == "a" {
